@@ -291,6 +291,8 @@ def check_fit_driver_semantic(ctx):
         except (AnalysisError, RecursionError) as ex:
             r = Unk(str(ex)[:100])
         lost = [str(x)[:80] for x in getattr(I, 'lost', [])]
+        if not lost and (getattr(I, '_unknown_conds', 0) or I.flow_taint):
+            lost = ['a condition or an exit on the way was not decided']          # what was (not) written past it proves nothing
         if isinstance(r, Unk) or getattr(I, 'uncaught', None) or lost:
             if getattr(I, 'uncaught', None):
                 ctx.violation('CFG-1', 'driver (%s): runs to the end of the input' % tag, where_, 'fit() stops with %s on a data file of two sources' % I.uncaught, 'driver-raises')
